@@ -25,6 +25,20 @@ pub enum Pat {
     FirstHalfOnes,
     /// ones only in the last (possibly partial) 64-bit word
     LastWordOnly,
+    // ---- appended by the coverage audit (serialized form of the variants above is unchanged)
+    /// all zero except TWO ones at these positions
+    Ones2(u32, u32),
+    /// all one except TWO zeros at these positions
+    Zeros2(u32, u32),
+    /// bit i = (i % n == 0): sparse with many pivots (several 256/512-bit lines per select-cache slot)
+    Period(u16),
+    /// bit i = (i % n != 0): dense with many zeros (the same for the select0 tables)
+    NotPeriod(u16),
+    /// density changes every 192 bits (not aligned with 256/512-bit lines): segment s = i/192 has class s%5 in
+    /// {empty, a single one at offset 100, every 16th bit, every 2nd bit, full}
+    Seg192,
+    /// irregular fixed sequence: bit i = (top 3 bits of (i+1)*0x9E3779B97F4A7C15) < m  (density m/8)
+    Hash(u8),
 }
 
 #[derive(Clone, Debug, Hash, Serialize, Deserialize, PartialEq, Eq)]
@@ -46,6 +60,20 @@ pub enum Build {
     Raw,
     /// push the string followed by 70 ones, then `resize(len, false)`
     Trunc,
+    // ---- appended by the coverage audit: the other public ways of producing / editing a BitVector
+    /// `with_size(len, bits[0])`, then one `set_range_simd(start, end, !bits[0])` per maximal run of the other value
+    SetRange,
+    /// `with_size(len, false)`, then `bulk_bitwise_op_simd(&other, Or, 0, len)` where other = string + 70 ones
+    OrLonger,
+    /// `new()`, then `ensure_set1` / `fast_ensure_set1` for every one (even-numbered ones first: growing paths,
+    /// then odd-numbered ones: in-range paths), then `resize(len, false)` for the trailing zeros
+    Ensure,
+    /// push the string without its middle bit followed by 3 ones, `pop()` three times, `insert(len/2, middle bit)`
+    PopInsert,
+    /// `with_size(len, !bits[0])`, then `set(i, b)` / `get_mut(i).set(b)` alternately for every bit that differs
+    SetBits,
+    /// push 130 ones, `clear()`, then push the string
+    ClearReuse,
 }
 
 #[derive(Clone, Copy, Debug, Hash, Serialize, Deserialize, PartialEq, Eq)]
@@ -104,7 +132,49 @@ pub fn single_positions(len: u32) -> Vec<u32> {
     v
 }
 
-pub fn patterns(len: u32) -> Vec<Pat> {
+/// lengths at which the audit's multi-line patterns (Period/NotPeriod/Seg192/Hash) are run
+pub fn bulk_pattern_len(len: u32, tier: Tier) -> bool {
+    match tier {
+        Tier::Quick => matches!(len, 257 | 513 | 2048 | 4097),
+        Tier::Thorough => len >= 127 && len != 65535 && len != 65537,
+    }
+}
+
+/// pairs of positions for the two-pivot patterns: first and last bit, and both sides of every block boundary
+pub fn pair_positions(len: u32) -> Vec<(u32, u32)> {
+    let mut v = Vec::new();
+    if len >= 2 {
+        v.push((0, len - 1));
+    }
+    for &b in BOUNDARIES {
+        if b < len && b >= 1 && (b - 1, b) != (0, len - 1) {
+            v.push((b - 1, b));
+        }
+    }
+    v
+}
+
+pub fn patterns(len: u32, tier: Tier) -> Vec<Pat> {
+    let mut v = patterns_base(len);
+    if len == 0 {
+        return v;
+    }
+    for (a, b) in pair_positions(len) {
+        v.push(Pat::Ones2(a, b));
+    }
+    for (a, b) in pair_positions(len) {
+        v.push(Pat::Zeros2(a, b));
+    }
+    if bulk_pattern_len(len, tier) {
+        v.extend_from_slice(&[Pat::Period(8), Pat::Period(16), Pat::NotPeriod(8), Pat::NotPeriod(16), Pat::Seg192, Pat::Hash(1), Pat::Hash(4), Pat::Hash(7)]);
+        if len > 4097 {
+            v.extend_from_slice(&[Pat::Period(64), Pat::NotPeriod(64)]);
+        }
+    }
+    v
+}
+
+fn patterns_base(len: u32) -> Vec<Pat> {
     let mut v = vec![Pat::Zeros, Pat::Ones];
     for p in single_positions(len) {
         v.push(Pat::One(p));
@@ -144,6 +214,21 @@ fn raw_bits(src: &Src) -> Vec<bool> {
                     Pat::Runs256 => (i / 256) % 2 == 0,
                     Pat::FirstHalfOnes => i < n / 2,
                     Pat::LastWordOnly => i >= 64 * ((n - 1) / 64),
+                    Pat::Ones2(a, b) => i == a as usize || i == b as usize,
+                    Pat::Zeros2(a, b) => i != a as usize && i != b as usize,
+                    Pat::Period(k) => i % k as usize == 0,
+                    Pat::NotPeriod(k) => i % k as usize != 0,
+                    Pat::Seg192 => {
+                        let w = i % 192;
+                        match (i / 192) % 5 {
+                            0 => false,
+                            1 => w == 100,
+                            2 => w % 16 == 5,
+                            3 => w % 2 == 0,
+                            _ => true,
+                        }
+                    }
+                    Pat::Hash(m) => (((i as u64 + 1).wrapping_mul(0x9E37_79B9_7F4A_7C15)) >> 61) < m as u64,
                 })
                 .collect()
         }
@@ -192,7 +277,7 @@ pub fn enumerate(kind: SpaceKind, tier: Tier, max_len: Option<usize>, f: &mut dy
                 break;
             }
         }
-        for pat in patterns(len) {
+        for pat in patterns(len, tier) {
             let sel = if len <= full { SelSet::All } else { SelSet::Sparse };
             if !f(Src::G { len, pat }, sel) {
                 return;
@@ -216,7 +301,9 @@ pub fn describe(kind: SpaceKind, tier: Tier, builds: &[Build], max_len: Option<u
         SpaceKind::Word1 => " (sequence = string zero-padded to 64 bits; plus every small string placed in the TOP bits of a word)",
     };
     format!(
-        "S = all bit strings of length <= {n}{kind_s}; G = lengths {lens:?} x patterns {{all-0, all-1, single 1 / single 0 at 0, len-1 and b-1,b,b+1 for b in {BOUNDARIES:?}, 0101, 1010, period 3, runs of 64, runs of 256, first half ones, last word only}}; x BitVector construction {builds:?}; queries: rank at EVERY p in 0..=len, get at every i<len, select at every k < n and k in {{n, n+1}} for len <= {} (beyond: k<3, k>=n-3, k%512 in {{0,1,2,255,256,257,510,511}})",
-        full_select_len(tier)
+        "S = all bit strings of length <= {n}{kind_s}; G = lengths {lens:?} x patterns {{all-0, all-1, single 1 / single 0 at 0, len-1 and b-1,b,b+1 for b in {BOUNDARIES:?}, 0101, 1010, period 3, runs of 64, runs of 256, first half ones, last word only, two ones / two zeros at (0,len-1) and (b-1,b)}}; at lengths {bulk:?} also {{period 8, period 16 and their complements, density switching every 192 bits over {{empty, single one, 1/16, 1/2, full}}, irregular Weyl sequence with density 1/8, 4/8, 7/8{}}}; x BitVector construction {builds:?}; queries: rank at EVERY p in 0..=len, get at every i<len, select at every k < n and k in {{n, n+1}} for len <= {} (beyond: k<3, k>=n-3, k%512 in {{0,1,2,255,256,257,510,511}})",
+        if tier == Tier::Thorough { ", period 64 and its complement at 65536" } else { "" },
+        full_select_len(tier),
+        bulk = lens.iter().copied().filter(|&l| bulk_pattern_len(l, tier)).collect::<Vec<_>>(),
     )
 }
